@@ -1,13 +1,92 @@
 /-
-Oracle ops for the `num` family.  Owned by the slice that models it; see AGENT_GUIDE.md.
+Oracle ops for the `num` family (C10).  Byte strings are lowercase hex, empty = `-`.
+
+  num puint <hex>                          → `<v> <0|1>`                 jsonwire.ParseUint
+  num int  <bits> <hex>                    → `ok <v>` | `E syntax` | `E range`      int arshaler, `case '0'` arm
+  num uint <bits> <hex>                    → `ok <v>` | `E syntax` | `E range`      uint arshaler
+  num intv  <bits> <stringify 0|1> <kind n|s|0|x> <hex>   → `set <v>` | `null` | `E syntax|range|mismatch`
+  num uintv <bits> <stringify 0|1> <kind n|s|0|x> <hex>   → same (hex = literal, or unquoted content for kind s)
+  num tokint  <hex>                        → `<v> <none|syntax|range>`   Token.Int on a raw number
+  num tokuint <hex>                        → `<v> <none|syntax|range>`   Token.Uint
+  num tokfloat <32|64> <hex>               → `<ieee bits, decimal> <none|range>`   Token.Float / exact ParseFloat
+  num fmtfloat <neg 0|1> <digits|-> <dp>   → hex of jsonwire.AppendFloat's text for 0.d₁…d_k × 10^dp
+  num ecma     <neg 0|1> <digits|-> <n>    → hex of the ECMA-262 Number::toString layout (Spec.Ecma)
+  num fmtint <decimal>                     → hex of strconv.AppendInt(…, 10)
+  num reformat <ints 0|1> <floats 0|1> <hex> → `V <hex>` (copied verbatim) | `F <float64 bits, decimal>`
+                                             (AppendFloat of that value is emitted)
 -/
 import JsonV.Oracle.Util
+import JsonV.Model.Number
+import JsonV.Spec.Ecma
 
 namespace JsonV.Oracle.Num
-open JsonV JsonV.Oracle
+open JsonV JsonV.Oracle JsonV.Model.Number
+
+def showArshErr : ArshErr → String
+  | .syntax => "E syntax" | .range => "E range" | .mismatch => "E mismatch"
+
+def showNumErr : NumErr → String
+  | .none => "none" | .syntax => "syntax" | .range => "range"
+
+def parseDigits (s : String) : Option (List Nat) :=
+  if s == "-" then some [] else
+  s.toList.foldr (fun c acc => match acc with
+    | some l => if '0' ≤ c ∧ c ≤ '9' then some ((c.toNat - 48) :: l) else none
+    | none => none) (some [])
+
+def parseKind : String → Option VKind
+  | "n" => some .null | "s" => some .str | "0" => some .num | "x" => some .other | _ => none
+
+def showStored {α} [ToString α] : Stored α → String
+  | .set v => s!"set {v}" | .null => "null" | .err e => showArshErr e
+
+def fmtOf : String → Option FloatFmt
+  | "64" => some fmt64 | "32" => some fmt32 | _ => none
+
+def pf64 : Bytes → Fl := parseFloatExact fmt64
 
 def handle (op : String) (args : List String) : String :=
   match op, args with
-  | _, _ => "ERR unimplemented"
+  | "puint", [h] => match bytesOfHex h with
+    | some b => let (v, ok) := parseUint b; s!"{v} {boolStr ok}"
+    | none => badArgs
+  | "int", [bits, h] => match bits.toNat?, bytesOfHex h with
+    | some w, some b => (match unmarshalInt w b with | .ok v => s!"ok {v}" | .error e => showArshErr e)
+    | _, _ => badArgs
+  | "uint", [bits, h] => match bits.toNat?, bytesOfHex h with
+    | some w, some b => (match unmarshalUint w b with | .ok v => s!"ok {v}" | .error e => showArshErr e)
+    | _, _ => badArgs
+  | "intv", [bits, st, k, h] => match bits.toNat?, parseKind k, bytesOfHex h with
+    | some w, some k, some b => showStored (unmarshalIntValue w (st == "1") k b)
+    | _, _, _ => badArgs
+  | "uintv", [bits, st, k, h] => match bits.toNat?, parseKind k, bytesOfHex h with
+    | some w, some k, some b => showStored (unmarshalUintValue w (st == "1") k b)
+    | _, _, _ => badArgs
+  | "tokint", [h] => match bytesOfHex h with
+    | some b => let (v, e) := tokenInt pf64 b; s!"{v} {showNumErr e}"
+    | none => badArgs
+  | "tokuint", [h] => match bytesOfHex h with
+    | some b => let (v, e) := tokenUint pf64 b; s!"{v} {showNumErr e}"
+    | none => badArgs
+  | "tokfloat", [bits, h] => match fmtOf bits, bytesOfHex h with
+    | some ff, some b => let (f, e) := tokenFloat (parseFloatExact ff) b; s!"{f.toBits ff} {showNumErr e}"
+    | _, _ => badArgs
+  | "fmtfloat", [neg, ds, dp] => match parseDigits ds, dp.toInt? with
+    | some ds, some dp => hexOfBytes (appendFloat (neg == "1") ds dp)
+    | _, _ => badArgs
+  | "ecma", [neg, ds, n] => match parseDigits ds, n.toInt? with
+    | some ds, some n => hexOfBytes (JsonV.Spec.Ecma.numberToString (neg == "1") ds n)
+    | _, _ => badArgs
+  | "fmtint", [d] => match d.toInt? with
+    | some i => hexOfBytes (formatInt i)
+    | none => badArgs
+  | "reformat", [ci, cf, h] => match bytesOfHex h with
+    | some b =>
+      let out := reformatNumber pf64 (fun f => 70 :: (toString (f.toBits fmt64)).toUTF8.toList) (ci == "1") (cf == "1") b
+      (match out with
+       | 70 :: rest => "F " ++ String.ofList (rest.map (fun c => Char.ofNat c.toNat))
+       | _ => "V " ++ hexOfBytes out)
+    | none => badArgs
+  | _, _ => badArgs
 
 end JsonV.Oracle.Num
